@@ -460,4 +460,749 @@ theorem Bvd.divRem_refines_d (s o : Raw 64) (h : s.Inv) (ho : o.Inv) :
         q.abs = s.abs.div o.abs ∧ r.abs = s.abs.rem o.abs) :=
   Bvd.divRem_refines s (.d o) h ho ⟨ho, rfl⟩
 
+-- ---- 3. `Bvf::div_rem` ------------------------------------------------------------------------------------
+/-- reading a `Raw w` in chunks of its own word type gives back its value -/
+theorem div_valF_getInt (s : Raw w) (hw : 0 < w) (h : s.Inv) (n : Nat) (hn : s.length ≤ w * n) :
+    valF (fun i => (s.getInt w i).getD 0#w) n = s.abs.val := by
+  apply valF_eq_of_bits hw
+  · exact Nat.lt_of_lt_of_le (h.wf hw) (Nat.pow_le_pow_right (by decide) hn)
+  · intro i j _ hj
+    rw [Raw.getInt_getLsbD s ⟨hw, hw, Or.inl (Nat.dvd_refl w)⟩ h, ← Raw.abs_bit s _ hw]
+    simp only [hj, decide_true, Bool.true_and]
+    rfl
+
+theorem div_len_le_intLen (s : Raw w) (hw : 0 < w) : s.length ≤ w * s.intLen w := by
+  have := le_capFromBitLen_mul hw s.length
+  rw [Nat.mul_comm] at this
+  exact this
+
+theorem div_Bvf_ge (r d : Raw w) (hw : 0 < w) (hr : r.Inv) (hd : d.Inv) :
+    (Bvf.cmpBvf r d != .lt) = decide (d.abs.val ≤ r.abs.val) := by
+  rw [Bvf.cmpBvf_eq_of_fetch r d
+    (div_valF_getInt r hw hr _ (Nat.le_trans (div_len_le_intLen r hw)
+      (Nat.mul_le_mul_left w (Nat.le_max_left _ _))))
+    (div_valF_getInt d hw hd _ (Nat.le_trans (div_len_le_intLen d hw)
+      (Nat.mul_le_mul_left w (Nat.le_max_right _ _)))),
+    div_cmp_ge]
+
+/-- the fetch hypothesis of `Bvf.addsubAssign_sub` for a right-hand side of the same type `Bvf<I,N>` -/
+theorem div_Bvf_fetch (d : Raw w) (N : Nat) (hN : d.data.size = N) :
+    valF (Bvf.rhsWord w N (.f w d)) N = (AnyBv.f w d).abs.val % 2 ^ (w * N) := by
+  have e : valF (Bvf.rhsWord w N (.f w d)) N = valF (wd d.data) N := by
+    apply Bva.valF_congr
+    intro t ht
+    unfold Bvf.rhsWord
+    simp only [if_true]
+    rw [if_pos (by omega), BitVec.setWidth_eq]
+  rw [e, valF_wd]
+  show _ = valUpTo d.data d.data.size % _
+  rw [hN, Nat.mod_eq_of_lt (valUpTo_lt d.data N)]
+
+theorem div_Bvf_sub_ok (r d : Raw w) (hw : 2 ≤ w) (hr : r.Inv)
+    (hN : d.data.size = r.data.size) (hle : d.abs.val ≤ r.abs.val) :
+    (Bvf.addsubAssign true r (.f w d)).Inv ∧ (Bvf.addsubAssign true r (.f w d)).length = r.length ∧
+      (Bvf.addsubAssign true r (.f w d)).data.size = r.data.size ∧
+      (Bvf.addsubAssign true r (.f w d)).abs.val = r.abs.val - d.abs.val := by
+  obtain ⟨h1, h2⟩ := Bvf.addsubAssign_sub r (.f w d) hw hr (div_Bvf_fetch d r.data.size hN)
+  have h3 : (AnyBv.f w d).abs = d.abs := rfl
+  rw [h3, div_BV_sub _ _ (hr.wf (by omega)) hle] at h2
+  refine ⟨h1, rfl, ?_, by rw [h2]⟩
+  unfold Bvf.addsubAssign
+  simp only [if_true, size_mod2n]
+  exact (chain_csub hw r.data (Bvf.rhsWord w r.data.size (.f w d)) r.data.size 0#w
+    (Nat.le_refl _) (by simp)).2.1
+
+theorem div_zero_raw (N L : Nat) (hw : 0 < w) (hL : L ≤ N * w) :
+    (⟨Array.replicate N 0#w, L⟩ : Raw w).Inv ∧ (⟨Array.replicate N 0#w, L⟩ : Raw w).abs.val = 0 := by
+  refine ⟨⟨by simpa using hL, fun i _ => ?_⟩, ?_⟩
+  · show bitAt (Array.replicate N 0#w) i = false
+    rw [Edit.bitAt_replicate]; simp
+  · apply Nat.eq_of_testBit_eq
+    intro i
+    have := Raw.abs_bit (⟨Array.replicate N 0#w, L⟩ : Raw w) i hw
+    unfold BV.bit at this
+    rw [this]
+    show bitAt (Array.replicate N 0#w) i = (0 : Nat).testBit i
+    rw [Edit.bitAt_replicate]; simp
+
+theorem div_Bvf_divRem_eq (s : Raw w) (kind : SrcKind) (x : AnyBv) :
+    Bvf.divRem s kind x =
+      if x.isZero then .panic else
+      if x.sigBits > s.sigBits then .ok (⟨Array.replicate s.data.size 0#w, s.length⟩, s) else
+      match Bvf.convert w s.data.size kind (x.copyRange kind 0 x.sigBits) with
+      | .ok d0 =>
+        match Bvf.resize d0 s.length false with
+        | .ok d1 =>
+          .ok (divLoop (fun r d => Bvf.cmpBvf r d != .lt) (fun r d => Bvf.addsubAssign true r (.f w d))
+            (fun q i => q.set i true) (fun d => d.shrAssign 1) (s.sigBits - x.sigBits + 1)
+            ⟨Array.replicate s.data.size 0#w, s.length⟩ s (d1.shlAssign (s.sigBits - x.sigBits)))
+        | _ => .panic
+      | _ => .panic := rfl
+
+/-- Task item 3 (core form): `Bvf::div_rem`, given that the conversion of the truncated divisor succeeds with the
+divisor's value (`hconv`; see `Bvf.divRem_refines` below for the form with a `Bvf.convert` specification).
+In particular neither `expect("divisor should fit in Self")` nor the `resize` can panic. -/
+theorem Bvf.divRem_refines_core (s : Raw w) (kind : SrcKind) (x : AnyBv) (hw : 2 ≤ w) (h : s.Inv)
+    (hx : div_AnyInv x)
+    (hconv : x.abs.val ≠ 0 → x.abs.sig ≤ s.abs.sig →
+      ∃ d0, Bvf.convert w s.data.size kind (x.copyRange kind 0 x.sigBits) = .ok d0 ∧
+        d0.Inv ∧ d0.abs.val = x.abs.val ∧ d0.data.size = s.data.size) :
+    (x.abs.val = 0 → Bvf.divRem s kind x = .panic) ∧
+    (x.abs.val ≠ 0 → ∃ q r, Bvf.divRem s kind x = .ok (q, r) ∧ q.Inv ∧ r.Inv ∧
+        q.abs = s.abs.div x.abs ∧ r.abs = s.abs.rem x.abs ∧
+        q.data.size = s.data.size ∧ r.data.size = s.data.size) := by
+  have hw0 : 0 < w := by omega
+  rw [div_Bvf_divRem_eq, div_any_isZero x hx, div_any_sigBits x hx, Raw.sigBits_eq s hw0 h]
+  constructor
+  · intro h0
+    rw [if_pos (decide_eq_true h0)]
+  · intro h0
+    rw [if_neg (by simpa using h0)]
+    obtain ⟨z1, z2⟩ := div_zero_raw s.data.size s.length hw0 h.1
+    by_cases hsig : BV.natBits x.abs.val > s.abs.sig
+    · rw [if_pos hsig]
+      obtain ⟨d1, d2⟩ := div_small _ _ (div_lt_of_natBits_lt _ _ hsig)
+      refine ⟨_, _, rfl, z1, h, ?_, ?_, by simp, rfl⟩
+      · unfold BV.div; rw [d1]; exact congrArg (BV.mk s.length) z2
+      · unfold BV.rem; rw [d2]
+    · rw [if_neg hsig]
+      have hsig' : BV.natBits x.abs.val ≤ BV.natBits s.abs.val := Nat.le_of_not_gt hsig
+      have hwf : s.abs.val < 2 ^ s.length := h.wf hw0
+      have hsl : BV.natBits s.abs.val ≤ s.length := (BV.natBits_le_iff _ _).mpr hwf
+      have hxl : x.abs.val < 2 ^ s.length :=
+        Nat.lt_of_lt_of_le (div_lt_pow_natBits _)
+          (Nat.pow_le_pow_right (by decide) (Nat.le_trans hsig' hsl))
+      obtain ⟨d0, e0, i0, v0, n0⟩ := hconv h0 hsig'
+      rw [div_any_sigBits x hx] at e0
+      rw [e0]
+      simp only
+      obtain ⟨d1, e1, c1, c2, n1⟩ := Bvf.resize_ok d0 s.length false hw0 i0
+        (Or.inl (by rw [n0]; exact h.1))
+      rw [e1]
+      simp only
+      rw [div_BV_resize _ _ (by rw [v0]; exact hxl), v0] at c2
+      obtain ⟨r1, r2, r3, r4⟩ := div_raw_main hw0
+        (fun r d => Bvf.cmpBvf r d != .lt) (fun r d => Bvf.addsubAssign true r (.f w d)) s
+        ⟨Array.replicate s.data.size 0#w, s.length⟩ d1 x.abs.val s.data.size s.data.size
+        (fun r d hr hd => div_Bvf_ge r d hw0 hr.1 hd.1)
+        (fun r d hr hd hle => by
+          obtain ⟨a1, a2, a3, a4⟩ := div_Bvf_sub_ok r d hw hr.1 (by rw [hd.2.2, hr.2.2]) hle
+          exact ⟨⟨a1, by rw [a2]; exact hr.2.1, by rw [a3]; exact hr.2.2⟩, a4⟩)
+        h ⟨z1, rfl, by simp⟩ z2 ⟨c1, (Raw.abs_len _).symm.trans (by rw [c2]), by rw [n1, n0]⟩
+        (by rw [c2]) h0 hsig' (s.abs.sig - BV.natBits x.abs.val) rfl
+      exact ⟨_, _, rfl, r1.1, r2.1, r3, r4, r1.2.2, r2.2.2⟩
+
+-- ---- conversions of the divisor (the facts `div_rem` needs about `Bvf::try_from` / `Bvd::from`) ---------------
+/-- word width of an operand -/
+def div_anyW : AnyBv → Nat
+  | .f w _ => w
+  | .d _ => 64
+
+/-- a vector whose word `k` holds bits `k*w …` of `a` when `P k`, and zero otherwise, refines `a` -/
+theorem div_refines_of_words (t : Raw w) (hw : 0 < w) (a : BV) (P : Nat → Prop) [DecidablePred P]
+    (hlen : t.length = a.len) (hcap : a.len ≤ t.data.size * w) (hwf : a.WF)
+    (hP : ∀ k, k * w < a.len → P k)
+    (hwd : ∀ k j, j < w → (wd t.data k).getLsbD j = (decide (P k) && a.bit (k * w + j))) :
+    t.Inv ∧ t.abs = a := by
+  have hz : ∀ i, a.len ≤ i → a.bit i = false := fun i hi =>
+    Nat.testBit_lt_two_pow (Nat.lt_of_lt_of_le hwf (Nat.pow_le_pow_right (by decide) hi))
+  have hb : ∀ i, bitAt t.data i = a.bit i := by
+    intro i
+    unfold bitAt
+    rw [hwd _ _ (Nat.mod_lt i hw)]
+    have e : i / w * w + i % w = i := by rw [Nat.mul_comm]; exact Nat.div_add_mod i w
+    rw [e]
+    by_cases hp : P (i / w)
+    · simp [hp]
+    · have : a.len ≤ i := by
+        apply Nat.le_of_not_lt
+        intro hlt
+        apply hp
+        apply hP
+        have := Nat.mod_lt i hw
+        omega
+      rw [hz i this]; simp
+  refine ⟨⟨by rw [hlen]; exact hcap, fun i hi => ?_⟩, ?_⟩
+  · rw [hb]; exact hz i (by omega)
+  · apply BV.ext_bits
+    · rw [Raw.abs_len, hlen]
+    · intro i; rw [Raw.abs_bit _ _ hw, hb]
+
+/-- bit `j` of chunk `k` of a vector read in `wJ`-bit chunks -/
+theorem div_getInt_bit {w1 wJ : Nat} (o : Raw w1) (hc : Compat w1 wJ) (ho : o.Inv) (k j : Nat)
+    (hj : j < wJ) : ((o.getInt wJ k).getD 0#wJ).getLsbD j = o.abs.bit (k * wJ + j) := by
+  rw [Raw.getInt_getLsbD o hc ho, Raw.abs_bit o _ hc.1]
+  simp [hj]
+
+/-- `Bvf::try_from(&Bvd)` succeeds when the length fits -/
+theorem div_fromBvd_ok (N : Nat) (o : Raw 64) (hc : Compat 64 w) (ho : o.Inv) (hl : o.length ≤ N * w) :
+    ∃ r, Bvf.fromBvd w N o = .ok r ∧ r.Inv ∧ r.abs = o.abs ∧ r.data.size = N := by
+  unfold Bvf.fromBvd
+  rw [if_neg (by omega)]
+  refine ⟨_, rfl, ?_⟩
+  rw [← and_assoc]
+  refine ⟨?_, by simp⟩
+  apply div_refines_of_words (⟨Array.ofFn (n := N) fun i => (o.getInt w i.val).getD 0#w, o.length⟩ : Raw w)
+    hc.2.1 o.abs (fun k => k < N) rfl
+    (by show o.length ≤ (Array.ofFn _).size * w; rw [Array.size_ofFn]; exact hl) (ho.wf hc.1)
+  · intro k hk
+    have hk' : k * w < N * w := Nat.lt_of_lt_of_le hk hl
+    exact Nat.lt_of_mul_lt_mul_right hk'
+  · intro k j hj
+    show (wd (Array.ofFn _) k).getLsbD j = _
+    rw [Edit.wd_ofFn]
+    by_cases hk : k < N
+    · rw [dif_pos hk, div_getInt_bit o hc ho k j hj]; simp [hk]
+    · rw [dif_neg hk]; simp [hk]
+
+/-- `Bvf::try_from(&Bvf)` succeeds when the length fits -/
+theorem div_fromBvf_ok (N : Nat) {w1 : Nat} (o : Raw w1) (hc : Compat w1 w) (ho : o.Inv)
+    (hl : o.length ≤ N * w) :
+    ∃ r, Bvf.fromBvf w N o = .ok r ∧ r.Inv ∧ r.abs = o.abs ∧ r.data.size = N := by
+  unfold Bvf.fromBvf
+  rw [if_neg (by omega)]
+  refine ⟨_, rfl, ?_⟩
+  rw [← and_assoc]
+  refine ⟨?_, by simp [size_forRange_set]⟩
+  apply div_refines_of_words (⟨forRange 0 (min N (o.intLen w))
+      (fun i a => a.setIfInBounds i ((o.getInt w i).getD 0#w)) (Array.replicate N 0#w), o.length⟩ : Raw w)
+    hc.2.1 o.abs (fun k => k < min N (o.intLen w) ∧ k < N) rfl
+    (by show o.length ≤ Array.size (forRange 0 _ _ _) * w
+        rw [size_forRange_set, Array.size_replicate]; exact hl) (ho.wf hc.1)
+  · intro k hk
+    have hk' : k * w < N * w := Nat.lt_of_lt_of_le hk hl
+    have h1 : k < N := Nat.lt_of_mul_lt_mul_right hk'
+    have h2 : k < o.intLen w := (rc_lt_ceilDiv_iff o.length w k hc.2.1).mpr hk
+    exact ⟨Nat.lt_min.mpr ⟨h1, h2⟩, h1⟩
+  · intro k j hj
+    show (wd (forRange 0 _ _ _) k).getLsbD j = _
+    rw [wd_forRange_set, Array.size_replicate]
+    by_cases hk : k < min N (o.intLen w) ∧ k < N
+    · rw [if_pos hk, div_getInt_bit o hc ho k j hj]; simp [hk]
+    · rw [if_neg hk, Edit.wd_replicate]; simp [hk]
+
+/-- `Bvf::try_from(&Bv)` succeeds when the length fits -/
+theorem div_fromBv_ok (N : Nat) (y : AnyBv) (hy : div_AnyInv y) (hc : Compat (div_anyW y) w)
+    (hl : y.len ≤ N * w) :
+    ∃ r, Bvf.fromBv w N y = .ok r ∧ r.Inv ∧ r.abs = y.abs ∧ r.data.size = N := by
+  unfold Bvf.fromBv
+  rw [if_neg (by omega)]
+  refine ⟨_, rfl, ?_⟩
+  rw [← and_assoc]
+  refine ⟨?_, by simp [size_forRange_set]⟩
+  have hwf : y.abs.WF := by
+    cases y with
+    | f w1 b => exact hy.2.wf hy.1
+    | d b => exact Raw.Inv.wf (w := 64) hy (by decide)
+  have hlen : y.abs.len = y.len := by cases y <;> rfl
+  have hbit : ∀ k j, j < w → ((y.getInt w k).getD 0#w).getLsbD j = y.abs.bit (k * w + j) := by
+    intro k j hj
+    cases y with
+    | f w1 b => exact div_getInt_bit b hc hy.2 k j hj
+    | d b => exact div_getInt_bit b hc hy k j hj
+  apply div_refines_of_words (⟨forRange 0 (y.intLen w)
+      (fun i a => a.setIfInBounds i ((y.getInt w i).getD 0#w)) (Array.replicate N 0#w), y.len⟩ : Raw w)
+    hc.2.1 y.abs (fun k => k < y.intLen w ∧ k < N) hlen.symm
+    (by rw [hlen]; simpa [size_forRange_set] using hl) hwf
+  · intro k hk
+    rw [hlen] at hk
+    have hk' : k * w < N * w := Nat.lt_of_lt_of_le hk hl
+    exact ⟨(rc_lt_ceilDiv_iff y.len w k hc.2.1).mpr hk, Nat.lt_of_mul_lt_mul_right hk'⟩
+  · intro k j hj
+    show (wd (forRange 0 _ _ _) k).getLsbD j = _
+    rw [wd_forRange_set, Array.size_replicate]
+    by_cases hk : k < y.intLen w ∧ k < N
+    · rw [if_pos hk, hbit k j hj]; simp [hk]
+    · rw [if_neg hk, Edit.wd_replicate]; simp [hk]
+
+/-- `Bvf::try_from(&B)` for every static source type -/
+theorem div_convert_ok (N : Nat) (kind : SrcKind) (y : AnyBv) (hy : div_AnyInv y)
+    (hc : Compat (div_anyW y) w) (hl : y.len ≤ N * w) :
+    ∃ r, Bvf.convert w N kind y = .ok r ∧ r.Inv ∧ r.abs = y.abs ∧ r.data.size = N := by
+  cases kind with
+  | bv => exact div_fromBv_ok N y hy hc hl
+  | bvf =>
+    cases y with
+    | f w1 b => exact div_fromBvf_ok N b hc hy.2 hl
+    | d b => exact div_fromBvd_ok N b hc hy hl
+  | bvd =>
+    cases y with
+    | f w1 b => exact div_fromBvf_ok N b hc hy.2 hl
+    | d b => exact div_fromBvd_ok N b hc hy hl
+
+/-- `Bvd::from(&Bvf)` -/
+theorem div_Bvd_fromBvf {w1 : Nat} (o : Raw w1) (hc : Compat w1 64) (ho : o.Inv) :
+    (Bvd.fromBvf o).Inv ∧ (Bvd.fromBvf o).abs = o.abs := by
+  unfold Bvd.fromBvf
+  apply div_refines_of_words (⟨Array.ofFn (n := o.intLen 64) fun i => (o.getInt 64 i.val).getD 0#64,
+      o.length⟩ : Raw 64) (by decide) o.abs (fun k => k < o.intLen 64) rfl
+    (by
+      show o.length ≤ (Array.ofFn _).size * 64
+      rw [Array.size_ofFn]
+      exact le_capFromBitLen_mul (by decide) o.length)
+    (ho.wf hc.1)
+  · intro k hk
+    exact (rc_lt_ceilDiv_iff o.length 64 k (by decide)).mpr hk
+  · intro k j hj
+    show (wd (Array.ofFn _) k).getLsbD j = _
+    rw [Edit.wd_ofFn]
+    by_cases hk : k < o.intLen 64
+    · rw [dif_pos hk, div_getInt_bit o hc ho k j hj]; simp [hk]
+    · rw [dif_neg hk]; simp [hk]
+
+theorem div_Bvd_convert (x : AnyBv) (hx : div_AnyInv x) (hc : Compat (div_anyW x) 64) :
+    (Bvd.convert x).Inv ∧ (Bvd.convert x).abs = x.abs := by
+  cases x with
+  | f w1 b => exact div_Bvd_fromBvf b hc hx.2
+  | d b => exact ⟨hx, rfl⟩
+
+-- ---- truncation of the divisor to its significant bits (repair D1) --------------------------------------------
+theorem div_BV_trunc (a : BV) : a.copyRange 0 a.sig = ⟨a.sig, a.val⟩ := by
+  unfold BV.copyRange BV.sig
+  rw [Nat.sub_zero, Nat.shiftRight_zero, Nat.mod_eq_of_lt (div_lt_pow_natBits a.val)]
+
+theorem div_trunc (kind : SrcKind) (x : AnyBv) (hx : div_AnyInv x) :
+    div_AnyInv (x.copyRange kind 0 x.sigBits) ∧
+    (x.copyRange kind 0 x.sigBits).abs = ⟨x.abs.sig, x.abs.val⟩ ∧
+    div_anyW (x.copyRange kind 0 x.sigBits) = div_anyW x := by
+  cases x with
+  | f w1 b =>
+    have hs : b.sigBits = b.abs.sig := Raw.sigBits_eq b hx.1 hx.2
+    obtain ⟨h1, h2⟩ := Bvf.copyRange_refines b 0 b.sigBits hx.1 hx.2 (Nat.zero_le _)
+      (by rw [hs]; exact BV.sig_le_len _ (hx.2.wf hx.1))
+    refine ⟨⟨hx.1, h1⟩, ?_, rfl⟩
+    show (Bvf.copyRange b 0 b.sigBits).abs = _
+    rw [h2, hs, div_BV_trunc]; rfl
+  | d b =>
+    have hs : b.sigBits = b.abs.sig := Raw.sigBits_eq b (by decide) hx
+    obtain ⟨h1, h2'⟩ := Bvd.copyRange_refines b 0 b.sigBits (Nat.zero_le _)
+    have h2 : (Bvd.copyRange b 0 b.sigBits).abs = ⟨b.abs.sig, b.abs.val⟩ := by
+      rw [h2', hs, div_BV_trunc]
+    show div_AnyInv (AnyBv.copyRange kind (.d b) 0 b.sigBits) ∧
+      (AnyBv.copyRange kind (.d b) 0 b.sigBits).abs = ⟨b.abs.sig, b.abs.val⟩ ∧
+      div_anyW (AnyBv.copyRange kind (.d b) 0 b.sigBits) = 64
+    unfold AnyBv.copyRange
+    simp only
+    split
+    · rename_i hk
+      obtain ⟨r, e, r1, r2, _⟩ := div_fromBvd_ok (w := 64) 2 (Bvd.copyRange b 0 b.sigBits)
+        ⟨by decide, by decide, Or.inl (Nat.dvd_refl 64)⟩ h1 (by omega)
+      rw [e]
+      refine ⟨⟨by decide, r1⟩, ?_, rfl⟩
+      show r.abs = _
+      rw [r2, h2]
+    · exact ⟨h1, h2, rfl⟩
+
+theorem div_any_len (y : AnyBv) : y.abs.len = y.len := by cases y <;> rfl
+
+/-- Task item 3: `Bvf::div_rem`.  A zero divisor panics; otherwise the call returns quotient and remainder — the
+`expect("divisor should fit in Self")` and the `resize` cannot fail, whatever the operand's type, length or capacity. -/
+theorem Bvf.divRem_refines (s : Raw w) (kind : SrcKind) (x : AnyBv) (hw : 2 ≤ w) (h : s.Inv)
+    (hx : div_AnyInv x) (hc : Compat (div_anyW x) w) :
+    (x.abs.val = 0 → Bvf.divRem s kind x = .panic) ∧
+    (x.abs.val ≠ 0 → ∃ q r, Bvf.divRem s kind x = .ok (q, r) ∧ q.Inv ∧ r.Inv ∧
+        q.abs = s.abs.div x.abs ∧ r.abs = s.abs.rem x.abs ∧
+        q.data.size = s.data.size ∧ r.data.size = s.data.size) := by
+  apply Bvf.divRem_refines_core s kind x hw h hx
+  intro _ hsig
+  have hw0 : 0 < w := by omega
+  obtain ⟨t1, t2, t3⟩ := div_trunc kind x hx
+  have hl : (x.copyRange kind 0 x.sigBits).len ≤ s.data.size * w := by
+    rw [← div_any_len, t2]
+    have := BV.sig_le_len s.abs (h.wf hw0)
+    have := h.1
+    show x.abs.sig ≤ _
+    rw [Raw.abs_len] at *
+    omega
+  obtain ⟨r, e, r1, r2, r3⟩ := div_convert_ok s.data.size kind _ t1 (by rw [t3]; exact hc) hl
+  exact ⟨r, e, r1, by rw [r2, t2], r3⟩
+
+/-- Task item 4, with the conversion of a `Bvf` operand discharged (`Compat w1 64` holds for every word type of the
+crate: `u8 … u128`). -/
+theorem Bvd.divRem_refines' (s : Raw 64) (x : AnyBv) (h : s.Inv) (hx : div_AnyInv x)
+    (hc : Compat (div_anyW x) 64) :
+    (x.abs.val = 0 → Bvd.divRem s x = .panic) ∧
+    (x.abs.val ≠ 0 → ∃ q r, Bvd.divRem s x = .ok (q, r) ∧ q.Inv ∧ r.Inv ∧
+        q.abs = s.abs.div x.abs ∧ r.abs = s.abs.rem x.abs) := by
+  obtain ⟨c1, c2⟩ := div_Bvd_convert x hx hc
+  exact Bvd.divRem_refines s x h hx ⟨c1, by rw [c2]⟩
+
+-- ---- 5. `Bv::div_rem` ---------------------------------------------------------------------------------------
+/-- storage invariant of `Bv` (Prop form of `Bv.invB`): the variant's invariant; `Fixed` holds exactly two words -/
+def div_BvInv : Bv → Prop
+  | .fixed b => b.Inv ∧ b.data.size = 2
+  | .dynamic b => b.Inv
+
+theorem div_BvInv_raw {t : Bv} (h : div_BvInv t) : t.raw.Inv := by
+  cases t with
+  | fixed b => exact h.1
+  | dynamic b => exact h
+
+/-- reading a `Raw w` in chunks of its own word type: any number of chunks -/
+theorem div_valF_getInt_mod (o : Raw w) (hw : 0 < w) (ho : o.Inv) (n : Nat) :
+    valF (fun i => (o.getInt w i).getD 0#w) n = o.abs.val % 2 ^ (w * n) := by
+  apply Nat.eq_of_testBit_eq
+  intro i
+  rw [testBit_valF hw, Nat.testBit_mod_two_pow,
+    div_getInt_bit o ⟨hw, hw, Or.inl (Nat.dvd_refl w)⟩ ho _ _ (Nat.mod_lt i hw)]
+  have e : i / w * w + i % w = i := by rw [Nat.mul_comm]; exact Nat.div_add_mod i w
+  rw [e]; rfl
+
+theorem div_Bvf_addsub_size (r : Raw w) (x : AnyBv) (hw : 2 ≤ w) :
+    (Bvf.addsubAssign true r x).data.size = r.data.size := by
+  unfold Bvf.addsubAssign
+  simp only [if_true, size_mod2n]
+  exact (chain_csub hw r.data (Bvf.rhsWord w r.data.size x) r.data.size 0#w
+    (Nat.le_refl _) (by simp)).2.1
+
+theorem div_Bv_ge (r d : Bv) (hr : div_BvInv r) (hd : div_BvInv d) :
+    (Bv.cmpAny r d.any != .lt) = decide (d.abs.val ≤ r.abs.val) := by
+  have hw : 0 < 64 := by decide
+  cases r with
+  | fixed a =>
+    cases d with
+    | fixed b => exact div_Bvf_ge a b hw hr.1 hd.1
+    | dynamic b =>
+      show ((Bvd.cmpBvf b a).swap != .lt) = _
+      rw [Bvd.cmpBvf_eq_of_fetch b a hd
+        (div_valF_getInt a hw hr.1 _ (Nat.le_trans (div_len_le_intLen a hw)
+          (Nat.mul_le_mul_left 64 (Nat.le_max_right _ _)))), natCmp_swap, div_cmp_ge]
+      rfl
+  | dynamic a =>
+    cases d with
+    | fixed b =>
+      show (Bvd.cmpBvf a b != .lt) = _
+      rw [Bvd.cmpBvf_eq_of_fetch a b hr
+        (div_valF_getInt b hw hd.1 _ (Nat.le_trans (div_len_le_intLen b hw)
+          (Nat.mul_le_mul_left 64 (Nat.le_max_right _ _)))), div_cmp_ge]
+      rfl
+    | dynamic b =>
+      show (Bvd.cmpBvd a b != .lt) = _
+      rw [Bvd.cmpBvd_eq', div_cmp_ge]
+      rfl
+
+theorem div_Bv_sub_ok (r d : Bv) (hr : div_BvInv r) (hd : div_BvInv d)
+    (hle : d.abs.val ≤ r.abs.val) :
+    div_BvInv (Bv.addsubAssign true r d.any) ∧ (Bv.addsubAssign true r d.any).len = r.len ∧
+      (Bv.addsubAssign true r d.any).abs.val = r.abs.val - d.abs.val := by
+  have hw : 0 < 64 := by decide
+  cases r with
+  | fixed a =>
+    cases d with
+    | fixed b =>
+      have hle' : b.abs.val ≤ a.abs.val := hle
+      obtain ⟨a1, a2, a3, a4⟩ := div_Bvf_sub_ok a b (by decide) hr.1 (by rw [hd.2, hr.2]) hle'
+      show ((Bvf.addsubAssign true a (.f 64 b)).Inv ∧ (Bvf.addsubAssign true a (.f 64 b)).data.size = 2) ∧
+        (Bvf.addsubAssign true a (.f 64 b)).length = a.length ∧
+        (Bvf.addsubAssign true a (.f 64 b)).abs.val = a.abs.val - b.abs.val
+      exact ⟨⟨a1, by rw [a3]; exact hr.2⟩, a2, a4⟩
+    | dynamic b =>
+      have hle' : b.abs.val ≤ a.abs.val := hle
+      have hd' : b.Inv := hd
+      have hf : valF (Bvf.rhsWord 64 a.data.size (.d b)) a.data.size =
+          (AnyBv.d b).abs.val % 2 ^ (64 * a.data.size) := div_valF_getInt_mod b hw hd' _
+      obtain ⟨h1, h2⟩ := Bvf.addsubAssign_sub a (.d b) (by decide) hr.1 hf
+      have h3 : (AnyBv.d b).abs = b.abs := rfl
+      rw [h3, div_BV_sub _ _ (hr.1.wf hw) hle'] at h2
+      show ((Bvf.addsubAssign true a (.d b)).Inv ∧ (Bvf.addsubAssign true a (.d b)).data.size = 2) ∧
+        (Bvf.addsubAssign true a (.d b)).length = a.length ∧
+        (Bvf.addsubAssign true a (.d b)).abs.val = a.abs.val - b.abs.val
+      refine ⟨⟨h1, ?_⟩, rfl, by rw [h2]⟩
+      rw [div_Bvf_addsub_size a _ (by decide)]; exact hr.2
+  | dynamic a =>
+    cases d with
+    | fixed b =>
+      have hle' : b.abs.val ≤ a.abs.val := hle
+      have hr' : a.Inv := hr
+      have hf : ∀ n, n ≤ (Bvd.rhsWords (.f 64 b)).1 →
+          valF (Bvd.rhsWords (.f 64 b)).2 n = (AnyBv.f 64 b).abs.val % 2 ^ (64 * n) :=
+        fun n _ => div_valF_getInt_mod b hw hd.1 n
+      have hx : (AnyBv.f 64 b).abs.val < 2 ^ (64 * (Bvd.rhsWords (.f 64 b)).1) :=
+        Nat.lt_of_lt_of_le (hd.1.wf hw) (Nat.pow_le_pow_right (by decide) (div_len_le_intLen b hw))
+      obtain ⟨h1, h2, _⟩ := Bvd.addsubAssign_sub a (.f 64 b) hr' hf hx
+      have h3 : (AnyBv.f 64 b).abs = b.abs := rfl
+      rw [h3, div_BV_sub _ _ (hr'.wf hw) hle'] at h2
+      show (Bvd.addsubAssign true a (.f 64 b)).Inv ∧
+        (Bvd.addsubAssign true a (.f 64 b)).length = a.length ∧
+        (Bvd.addsubAssign true a (.f 64 b)).abs.val = a.abs.val - b.abs.val
+      exact ⟨h1, (Raw.abs_len _).symm.trans (by rw [h2]; rfl), by rw [h2]⟩
+    | dynamic b =>
+      have hle' : b.abs.val ≤ a.abs.val := hle
+      obtain ⟨a1, a2, _, a4⟩ := div_Bvd_sub_ok a b hr hd hle'
+      exact ⟨a1, a2, a4⟩
+
+theorem div_Bv_mapRaw (f : Raw 64 → Raw 64) (t : Bv) (ht : div_BvInv t)
+    (hf : (f t.raw).Inv ∧ (f t.raw).length = t.raw.length ∧ (f t.raw).data.size = t.raw.data.size) :
+    div_BvInv (Bv.mapRaw f t) ∧ (Bv.mapRaw f t).len = t.len ∧ (Bv.mapRaw f t).abs = (f t.raw).abs := by
+  cases t with
+  | fixed b => exact ⟨⟨hf.1, hf.2.2.trans ht.2⟩, hf.2.1, rfl⟩
+  | dynamic b => exact ⟨hf.1, hf.2.1, rfl⟩
+
+/-- `Bv` invariant with fixed bit length -/
+def div_BvJ (L : Nat) (t : Bv) : Prop := div_BvInv t ∧ t.len = L
+
+theorem div_Bv_main (s q0 d1 : Bv) (b : Nat) (hs : div_BvInv s) (hq : div_BvJ s.len q0)
+    (hq0 : q0.abs.val = 0) (hd1 : div_BvJ s.len d1) (hdv : d1.abs.val = b) (hb : b ≠ 0)
+    (hsig : BV.natBits b ≤ BV.natBits s.abs.val) (shift : Nat)
+    (hshift : shift = BV.natBits s.abs.val - BV.natBits b) :
+    div_BvJ s.len (divLoop (fun r d => Bv.cmpAny r d.any != .lt)
+      (fun r d => Bv.addsubAssign true r d.any) (fun q i => Bv.mapRaw (fun t => t.set i true) q)
+      (Bv.mapRaw (fun t => t.shrAssign 1)) (shift + 1) q0 s
+      (Bv.mapRaw (fun t => t.shlAssign shift) d1)).1 ∧
+    div_BvJ s.len (divLoop (fun r d => Bv.cmpAny r d.any != .lt)
+      (fun r d => Bv.addsubAssign true r d.any) (fun q i => Bv.mapRaw (fun t => t.set i true) q)
+      (Bv.mapRaw (fun t => t.shrAssign 1)) (shift + 1) q0 s
+      (Bv.mapRaw (fun t => t.shlAssign shift) d1)).2 ∧
+    (divLoop (fun r d => Bv.cmpAny r d.any != .lt)
+      (fun r d => Bv.addsubAssign true r d.any) (fun q i => Bv.mapRaw (fun t => t.set i true) q)
+      (Bv.mapRaw (fun t => t.shrAssign 1)) (shift + 1) q0 s
+      (Bv.mapRaw (fun t => t.shlAssign shift) d1)).1.abs = ⟨s.len, s.abs.val / b⟩ ∧
+    (divLoop (fun r d => Bv.cmpAny r d.any != .lt)
+      (fun r d => Bv.addsubAssign true r d.any) (fun q i => Bv.mapRaw (fun t => t.set i true) q)
+      (Bv.mapRaw (fun t => t.shrAssign 1)) (shift + 1) q0 s
+      (Bv.mapRaw (fun t => t.shlAssign shift) d1)).2.abs = ⟨s.len, s.abs.val % b⟩ := by
+  have hw : 0 < 64 := by decide
+  have hsr := div_BvInv_raw hs
+  have hwf : s.abs.val < 2 ^ s.len := hsr.wf hw
+  have hsl : BV.natBits s.abs.val ≤ s.len := (BV.natBits_le_iff _ _).mpr hwf
+  have hbpos := div_natBits_pos b hb
+  have h1 : b * 2 ^ shift < 2 ^ s.len := by
+    rw [hshift]
+    exact Nat.lt_of_lt_of_le (div_shifted_lt _ _ hsig) (Nat.pow_le_pow_right (by decide) hsl)
+  -- the shifted divisor
+  have hd1l : d1.raw.length = s.len := hd1.2
+  obtain ⟨e1, e2, e3, e4⟩ := div_shl_ok d1.raw shift hw (div_BvInv_raw hd1.1)
+    (by rw [hd1l]; exact hdv ▸ h1)
+  obtain ⟨m1, m2, m3⟩ := div_Bv_mapRaw (fun t => t.shlAssign shift) d1 hd1.1 ⟨e1, e2, e3⟩
+  have hd2 : div_BvJ s.len (Bv.mapRaw (fun t => t.shlAssign shift) d1) := ⟨m1, m2.trans hd1.2⟩
+  have hd2v : (Bv.mapRaw (fun t => t.shlAssign shift) d1).abs.val = b * 2 ^ shift := by
+    rw [m3]; show (d1.raw.shlAssign shift).abs.val = _; rw [e4]; exact congrArg (· * 2 ^ shift) hdv
+  obtain ⟨r1, r2, r3, r4⟩ := divLoop_div_rem (fun r d => Bv.cmpAny r d.any != .lt)
+    (fun r d => Bv.addsubAssign true r d.any) (fun q i => Bv.mapRaw (fun t => t.set i true) q)
+    (Bv.mapRaw (fun t => t.shrAssign 1)) (div_BvJ s.len) (div_BvJ s.len) (div_BvJ s.len)
+    (fun t => t.abs.val) s.len
+    (fun r d hr hd => div_Bv_ge r d hr.1 hd.1)
+    (fun r d hr hd hle => by
+      obtain ⟨a1, a2, a3⟩ := div_Bv_sub_ok r d hr.1 hd.1 hle
+      exact ⟨⟨a1, a2.trans hr.2⟩, a3⟩)
+    (fun q i hq hi hbit => by
+      obtain ⟨a1, a2, a3, a4⟩ := div_set_ok q.raw i hw (div_BvInv_raw hq.1)
+        (by rw [show q.raw.length = s.len from hq.2]; exact hi) hbit
+      obtain ⟨n1, n2, n3⟩ := div_Bv_mapRaw (fun t => t.set i true) q hq.1 ⟨a1, a2, a3⟩
+      exact ⟨⟨n1, n2.trans hq.2⟩, by rw [n3]; exact a4⟩)
+    (fun d hd => by
+      obtain ⟨a1, a2, a3, a4⟩ := div_shr_ok d.raw hw (div_BvInv_raw hd.1)
+      obtain ⟨n1, n2, n3⟩ := div_Bv_mapRaw (fun t => t.shrAssign 1) d hd.1 ⟨a1, a2, a3⟩
+      exact ⟨⟨n1, n2.trans hd.2⟩, by rw [n3]; exact a4⟩)
+    shift b q0 s _ (by omega) hq ⟨hs, rfl⟩ hd2 hq0 hb hd2v
+    (by rw [hshift]; exact div_dividend_lt _ _ hb hsig)
+  refine ⟨r1, r2, ?_, ?_⟩
+  · generalize (divLoop (fun r d => Bv.cmpAny r d.any != .lt)
+      (fun r d => Bv.addsubAssign true r d.any) (fun q i => Bv.mapRaw (fun t => t.set i true) q)
+      (Bv.mapRaw (fun t => t.shrAssign 1)) (shift + 1) q0 s
+      (Bv.mapRaw (fun t => t.shlAssign shift) d1)).1 = t at r1 r3
+    show (⟨t.len, t.abs.val⟩ : BV) = _
+    rw [r1.2, r3]
+  · generalize (divLoop (fun r d => Bv.cmpAny r d.any != .lt)
+      (fun r d => Bv.addsubAssign true r d.any) (fun q i => Bv.mapRaw (fun t => t.set i true) q)
+      (Bv.mapRaw (fun t => t.shrAssign 1)) (shift + 1) q0 s
+      (Bv.mapRaw (fun t => t.shlAssign shift) d1)).2 = t at r2 r4
+    show (⟨t.len, t.abs.val⟩ : BV) = _
+    rw [r2.2, r4]
+
+theorem div_compat64 : Compat 64 64 := ⟨by decide, by decide, Or.inl (Nat.dvd_refl 64)⟩
+
+theorem div_Bv_zeros (n : Nat) :
+    div_BvInv (Bv.zeros n) ∧ (Bv.zeros n).len = n ∧ (Bv.zeros n).abs.val = 0 := by
+  unfold Bv.zeros Bv.cap128
+  split
+  · rename_i hn
+    obtain ⟨r, e, r1, r2, r3⟩ := Bvf.zeros_ok (w := 64) 2 n (by decide) (by omega)
+    rw [e]
+    show (r.Inv ∧ r.data.size = 2) ∧ r.length = n ∧ r.abs.val = 0
+    exact ⟨⟨r1, r3⟩, (Raw.abs_len r).symm.trans (by rw [r2]; rfl), by rw [r2]; rfl⟩
+  · obtain ⟨z1, z2, _⟩ := Bvd.zeros_refines n
+    show (Bvd.zeros n).Inv ∧ (Bvd.zeros n).length = n ∧ (Bvd.zeros n).abs.val = 0
+    exact ⟨z1, rfl, by rw [z2]; rfl⟩
+
+theorem div_Bv_fromBvf {w1 : Nat} (b : Raw w1) (hc : Compat w1 64) (hb : b.Inv) :
+    div_BvInv (Bv.fromBvf b) ∧ (Bv.fromBvf b).abs = b.abs := by
+  unfold Bv.fromBvf Bv.cap128
+  split
+  · rename_i hn
+    obtain ⟨r, e, r1, r2, r3⟩ := div_fromBvf_ok (w := 64) 2 b hc hb (by have := hb.1; omega)
+    rw [e]
+    exact ⟨⟨r1, r3⟩, r2⟩
+  · exact div_Bvd_fromBvf b hc hb
+
+theorem div_Bv_fromBvd (b : Raw 64) (hb : b.Inv) :
+    div_BvInv (Bv.fromBvd b) ∧ (Bv.fromBvd b).abs = b.abs := by
+  unfold Bv.fromBvd
+  by_cases hl : b.length ≤ 128
+  · obtain ⟨r, e, r1, r2, r3⟩ := div_fromBvd_ok (w := 64) 2 b div_compat64 hb (by omega)
+    rw [e]
+    exact ⟨⟨r1, r3⟩, r2⟩
+  · have e : Bvf.fromBvd 64 2 b = .err "NotEnoughCapacity" := by
+      unfold Bvf.fromBvd; rw [if_pos (by omega)]
+    rw [e]
+    exact ⟨hb, rfl⟩
+
+theorem div_Bv_convert_bv_f {w1 : Nat} (b : Raw w1) :
+    Bv.convert .bv (.f w1 b) = .fixed ⟨b.data.map (·.setWidth 64), b.length⟩ := rfl
+theorem div_Bv_convert_bvf_f {w1 : Nat} (b : Raw w1) : Bv.convert .bvf (.f w1 b) = Bv.fromBvf b := rfl
+theorem div_Bv_convert_bvd_f {w1 : Nat} (b : Raw w1) : Bv.convert .bvd (.f w1 b) = Bv.fromBvf b := rfl
+theorem div_Bv_convert_bv_d (b : Raw 64) : Bv.convert .bv (.d b) = .dynamic b := rfl
+theorem div_Bv_convert_bvf_d (b : Raw 64) : Bv.convert .bvf (.d b) = Bv.fromBvd b := rfl
+theorem div_Bv_convert_bvd_d (b : Raw 64) : Bv.convert .bvd (.d b) = Bv.fromBvd b := rfl
+
+/-- `Bv::from(&B)`; for `kind = .bv` a fixed operand is the payload of a `Bv::Fixed` (64-bit words, two of them) -/
+theorem div_Bv_convert (kind : SrcKind) (x : AnyBv) (hx : div_AnyInv x)
+    (hc : Compat (div_anyW x) 64)
+    (hk : kind = .bv → ∀ w1 (b : Raw w1), x = .f w1 b → w1 = 64 ∧ b.data.size = 2) :
+    div_BvInv (Bv.convert kind x) ∧ (Bv.convert kind x).abs = x.abs := by
+  cases x with
+  | f w1 b =>
+    have hb : b.Inv := hx.2
+    have hc' : Compat w1 64 := hc
+    have ha : (AnyBv.f w1 b).abs = b.abs := rfl
+    rw [ha]
+    cases kind with
+    | bv =>
+      obtain ⟨h64, hsz⟩ := hk rfl w1 b rfl
+      subst h64
+      have e : b.data.map (·.setWidth 64) = b.data := by simp
+      rw [div_Bv_convert_bv_f, e]
+      exact ⟨⟨hb, hsz⟩, rfl⟩
+    | bvf => rw [div_Bv_convert_bvf_f]; exact div_Bv_fromBvf b hc' hb
+    | bvd => rw [div_Bv_convert_bvd_f]; exact div_Bv_fromBvf b hc' hb
+  | d b =>
+    have hb : b.Inv := hx
+    have ha : (AnyBv.d b).abs = b.abs := rfl
+    rw [ha]
+    cases kind with
+    | bv => rw [div_Bv_convert_bv_d]; exact ⟨hb, rfl⟩
+    | bvf => rw [div_Bv_convert_bvf_d]; exact div_Bv_fromBvd b hb
+    | bvd => rw [div_Bv_convert_bvd_d]; exact div_Bv_fromBvd b hb
+
+theorem div_Bv_resize_fixed (b : Raw 64) (n : Nat) (bit : Bool) :
+    Bv.resize (.fixed b) n bit =
+      if n > b.length ∧ b.length + (n - b.length) > 128 then
+        .ok (.dynamic (Bvd.resize (Bvd.reserve (Bvd.fromBvf b) (n - b.length)) n bit))
+      else Bv.liftRes (Bvf.resize b n bit) := by
+  unfold Bv.resize Bv.reserve Bv.cap128
+  show (match (if n > b.length then
+      (if b.length + (n - b.length) > 128 then
+        Bv.dynamic (Bvd.reserve (Bvd.fromBvf b) (n - b.length)) else Bv.fixed b) else Bv.fixed b) with
+    | .fixed b => Bv.liftRes (Bvf.resize b n bit)
+    | .dynamic b => .ok (.dynamic (Bvd.resize b n bit))) = _
+  by_cases h1 : n > b.length
+  · by_cases h2 : b.length + (n - b.length) > 128
+    · simp only [h1, h2, if_true, and_self]
+    · simp only [h1, h2, if_true, if_false, and_false]
+  · simp only [h1, if_false, false_and]
+
+theorem div_Bv_resize_dynamic (b : Raw 64) (n : Nat) (bit : Bool) :
+    Bv.resize (.dynamic b) n bit =
+      .ok (.dynamic (Bvd.resize (if n > b.length then Bvd.reserve b (n - b.length) else b) n bit)) := by
+  unfold Bv.resize Bv.reserve
+  show (match (if n > b.length then Bv.dynamic (Bvd.reserve b (n - b.length)) else Bv.dynamic b) with
+    | .fixed b => Bv.liftRes (Bvf.resize b n bit)
+    | .dynamic b => .ok (.dynamic (Bvd.resize b n bit))) = _
+  by_cases h1 : n > b.length
+  · simp only [h1, if_true]
+  · simp only [h1, if_false]
+
+/-- `Bv::resize` never fails (a `Fixed` that must grow beyond 128 bits is first moved to the heap) -/
+theorem div_Bv_resize (c : Bv) (n : Nat) (bit : Bool) (hc : div_BvInv c) :
+    ∃ r, Bv.resize c n bit = .ok r ∧ div_BvInv r ∧ r.abs = c.abs.resize n bit := by
+  have hw : 0 < 64 := by decide
+  cases c with
+  | fixed b =>
+    rw [div_Bv_resize_fixed]
+    have ha : (Bv.fixed b).abs = b.abs := rfl
+    rw [ha]
+    split
+    · obtain ⟨f1, f2⟩ := div_Bvd_fromBvf b div_compat64 hc.1
+      obtain ⟨r1, r2, _⟩ := Bvd.reserve_refines (Bvd.fromBvf b) (n - b.length) f1
+      obtain ⟨p1, p2⟩ := Bvd.resize_refines _ n bit r1
+      exact ⟨_, rfl, p1, by rw [← f2, ← r2]; exact p2⟩
+    · rename_i hn
+      obtain ⟨r, e, r1, r2, r3⟩ := Bvf.resize_ok b n bit hw hc.1 (by rw [hc.2]; omega)
+      rw [e]
+      exact ⟨_, rfl, ⟨r1, r3.trans hc.2⟩, r2⟩
+  | dynamic b =>
+    rw [div_Bv_resize_dynamic]
+    have ha : (Bv.dynamic b).abs = b.abs := rfl
+    have hb : b.Inv := hc
+    rw [ha]
+    split
+    · obtain ⟨r1, r2, _⟩ := Bvd.reserve_refines b (n - b.length) hb
+      obtain ⟨p1, p2⟩ := Bvd.resize_refines _ n bit r1
+      exact ⟨_, rfl, p1, by rw [← r2]; exact p2⟩
+    · obtain ⟨p1, p2⟩ := Bvd.resize_refines b n bit hb
+      exact ⟨_, rfl, p1, p2⟩
+
+theorem div_BvInv_iff_invB (t : Bv) : div_BvInv t ↔ t.invB = true := by
+  cases t with
+  | fixed b =>
+    show (b.Inv ∧ b.data.size = 2) ↔ (b.invB && b.data.size == 2) = true
+    rw [Bool.and_eq_true, Raw.invB_iff b (by decide), beq_iff_eq]
+  | dynamic b => exact (Raw.invB_iff b (by decide)).symm
+
+theorem div_Bv_divRem_eq (s : Bv) (kind : SrcKind) (x : AnyBv) :
+    Bv.divRem s kind x =
+      if x.isZero then .panic else
+      if x.sigBits > s.raw.sigBits then .ok (Bv.zeros s.len, s) else
+      match Bv.resize (Bv.convert kind x) s.len false with
+      | .ok d1 =>
+        .ok (divLoop (fun r d => Bv.cmpAny r d.any != .lt) (fun r d => Bv.addsubAssign true r d.any)
+          (fun q i => Bv.mapRaw (fun t => t.set i true) q) (Bv.mapRaw (fun t => t.shrAssign 1))
+          (s.raw.sigBits - x.sigBits + 1) (Bv.zeros s.len) s
+          (Bv.mapRaw (fun t => t.shlAssign (s.raw.sigBits - x.sigBits)) d1))
+      | _ => .panic := rfl
+
+/-- `Bv::div_rem`.  `hk`: when the operand's static type is `Bv` and it holds a `Fixed`, that is a `Bvf<u64,2>`. -/
+theorem Bv.divRem_refines (s : Bv) (kind : SrcKind) (x : AnyBv) (h : div_BvInv s)
+    (hx : div_AnyInv x) (hc : Compat (div_anyW x) 64)
+    (hk : kind = .bv → ∀ w1 (b : Raw w1), x = .f w1 b → w1 = 64 ∧ b.data.size = 2) :
+    (x.abs.val = 0 → Bv.divRem s kind x = .panic) ∧
+    (x.abs.val ≠ 0 → ∃ q r, Bv.divRem s kind x = .ok (q, r) ∧ div_BvInv q ∧ div_BvInv r ∧
+        q.abs = s.abs.div x.abs ∧ r.abs = s.abs.rem x.abs) := by
+  have hw : 0 < 64 := by decide
+  have hsr := div_BvInv_raw h
+  rw [div_Bv_divRem_eq, div_any_isZero x hx, div_any_sigBits x hx, Raw.sigBits_eq s.raw hw hsr]
+  have hsa : s.raw.abs = s.abs := rfl
+  rw [hsa]
+  constructor
+  · intro h0
+    rw [if_pos (decide_eq_true h0)]
+  · intro h0
+    rw [if_neg (by simpa using h0)]
+    obtain ⟨z1, z2, z3⟩ := div_Bv_zeros s.len
+    have hslen : s.abs.len = s.len := rfl
+    by_cases hsig : BV.natBits x.abs.val > s.abs.sig
+    · rw [if_pos hsig]
+      obtain ⟨d1, d2⟩ := div_small _ _ (div_lt_of_natBits_lt _ _ hsig)
+      refine ⟨_, _, rfl, z1, h, ?_, ?_⟩
+      · unfold BV.div; rw [d1, hslen]
+        show (⟨(Bv.zeros s.len).len, (Bv.zeros s.len).abs.val⟩ : BV) = _
+        rw [z2, z3]
+      · unfold BV.rem; rw [d2]
+    · rw [if_neg hsig]
+      have hsig' : BV.natBits x.abs.val ≤ BV.natBits s.abs.val := Nat.le_of_not_gt hsig
+      have hwf : s.abs.val < 2 ^ s.len := hsr.wf hw
+      have hsl : BV.natBits s.abs.val ≤ s.len := (BV.natBits_le_iff _ _).mpr hwf
+      have hxl : x.abs.val < 2 ^ s.len :=
+        Nat.lt_of_lt_of_le (div_lt_pow_natBits _)
+          (Nat.pow_le_pow_right (by decide) (Nat.le_trans hsig' hsl))
+      obtain ⟨c1, c2⟩ := div_Bv_convert kind x hx hc hk
+      obtain ⟨d1, e1, i1, a1⟩ := div_Bv_resize (Bv.convert kind x) s.len false c1
+      rw [e1]
+      simp only
+      rw [c2, div_BV_resize _ _ hxl] at a1
+      obtain ⟨r1, r2, r3, r4⟩ := div_Bv_main s (Bv.zeros s.len) d1 x.abs.val h ⟨z1, z2⟩ z3
+        ⟨i1, (show d1.abs.len = s.len by rw [a1])⟩ (by rw [a1]) h0 hsig'
+        (s.abs.sig - BV.natBits x.abs.val) rfl
+      exact ⟨_, _, rfl, r1.1, r2.1, r3, r4⟩
+
 end Bva
